@@ -246,6 +246,15 @@ def check(ctx):
                         a = ctb.call_args(bi)
                         d = m_digest(strip_sites(a[1]))
                         ins.append((bi, d))
+                    elif c is not None and c.name == 'extend' and c.is_trait_method('Extend'):
+                        # result.extend([digest(e), digest(subject(e))]) adds the listed values
+                        a = ctb.call_args(bi)
+                        lst = seq_norm(a[1])
+                        if lst is not None and all(k_ == 'one' for k_, _v in lst):
+                            for k_, v_ in lst:
+                                ins.append((bi, m_digest(v_)))
+                        else:
+                            ins.append((bi, None))
                 want = {P2, ('call',)}
                 got_self = [bi for bi, d in ins if d == P2]
                 got_subj = [bi for bi, d in ins if d is not None and m_call(d, name='subject', self_suffix='Envelope') is not None and m_call(d, name='subject', self_suffix='Envelope')[0] == P2]
